@@ -111,6 +111,7 @@ func VerifC20_HookInstallFresh() {
 	hooks := LoadHooks(dir, nil)
 	h := hooks[verifChoose("hook", len(hooks))]
 	path := dir + "/" + h.Type
+	verifFSWrite(dir+"/README.sample", "x", 0644) // the hooks directory exists
 	verifAssert(!h.Exists(), "no hook initially")
 	verifAssert(h.write() == nil, "writing the hook succeeds")
 	first, ok := verifFSRead(path)
